@@ -1,8 +1,11 @@
 //! C07: payload iteration returns every file's exact content under its own metadata.
 //!
-//! `files comp=<type>[:<level>] large=<0|1> [f=<hexdest>:<octperm>:<size>:<kind><seed>]*`
+//! `files comp=<type>[:<level>] large=<0|1> [thr=<N>] [f=<hexdest>:<octperm>:<size>:<kind><seed>]*`
 //!     builds a package with the real `PackageBuilder` (source files in a scratch directory under
 //!     `work/`), writes it to bytes, re-parses it and iterates `Package::files()`.
+//!     `large=1` forces the large-file (stripped cpio) form through the rpm_verif hook (threshold 0); `thr=<N>` sets the
+//!     hook's threshold to N instead, so that the builder's switch `combined_file_sizes > threshold` — the guard in front of
+//!     `payload::Writer`, whose `u32` arithmetic needs it — is exercised AT its boundary (combined = N, N + 1).
 //!     Content generators (the Lean driver regenerates the same bytes):
 //!       kind `r` (compressible): byte i = (seed + i) mod 251
 //!       kind `p` (incompressible): splitmix64 — state s0 = seed; block k: s += 0x9E3779B97F4A7C15,
@@ -14,7 +17,11 @@
 //! observation: `ok n=<yielded> ar=<fnv of the raw payload | -> {<path>:<size>:<len>:<fnv>:<octmode>:<dg>}`
 //!     (`path` = hex, or `L<len>.<fnv>` above 40 bytes; `size` = recorded size, `len` = |content|;
 //!      `dg` = 1/0: sha256(content) (sha2 crate, computed here) equals / differs from the recorded digest,
-//!      `n`: no digest recorded), followed by `err@<i>` when the i-th `next()` returned an error;
+//!      `n`: no digest recorded), followed by `err@<i>` when the i-th `next()` returned an error, and by
+//!     `all=<k>:<classes>:<fnv>`: a SECOND, fresh `files()` iterator drained like `collect()` does — without stopping
+//!     at an error item — until the first `None`: number of items, their classes run-length encoded (`o2e1` = two Ok
+//!     items, then one Err; `-` = none), fnv over (path 00 content 01 | 02 for an Err) of all of them;
+//!     `all=runaway` when more than (header files + 16) items came out;
 //!     `err-build`, `err-write`, `err-parse`, `err-files` when an earlier step failed.
 use crate::common::*;
 use crate::pkggen::*;
@@ -43,6 +50,50 @@ pub fn content_of(kind: char, seed: u64, size: usize) -> Vec<u8> {
 
 fn path_repr(p: &[u8]) -> String {
     if p.len() <= 40 { hx(p) } else { format!("L{}.{:016x}", p.len(), fnv(p)) }
+}
+
+/// what a consumer sees that does NOT stop at an error item (`collect()`, `filter_map(Result::ok)`, `count()`):
+/// `<k>:<classes>:<fnv>` | `runaway` | `err-files` (see the module comment). The iterator is pulled at most
+/// (header files + 17) times.
+pub fn drain_all(pkg: &rpm::Package) -> String {
+    let cap = pkg.metadata.get_file_entries().map(|v| v.len()).unwrap_or(0) + 16;
+    let it = match pkg.files() {
+        Ok(it) => it,
+        Err(_) => return "err-files".into(),
+    };
+    let mut h: u64 = 0xcbf29ce484222325;
+    let mut eat = |bs: &[u8]| {
+        for b in bs {
+            h = (h ^ *b as u64).wrapping_mul(0x100000001b3);
+        }
+    };
+    let mut runs: Vec<(char, usize)> = Vec::new();
+    let mut k = 0usize;
+    for r in it.take(cap + 1) {
+        k += 1;
+        let c = match r {
+            Ok(f) => {
+                eat(f.metadata.path.as_os_str().as_bytes());
+                eat(&[0]);
+                eat(&f.content);
+                eat(&[1]);
+                'o'
+            }
+            Err(_) => {
+                eat(&[2]);
+                'e'
+            }
+        };
+        match runs.last_mut() {
+            Some((d, n)) if *d == c => *n += 1,
+            _ => runs.push((c, 1)),
+        }
+    }
+    if k > cap {
+        return "runaway".into();
+    }
+    let pat: String = if runs.is_empty() { "-".into() } else { runs.iter().map(|(c, n)| format!("{}{}", c, n)).collect() };
+    format!("{}:{}:{:016x}", k, pat, h)
 }
 
 /// iterate `files()` and print the canonical observation
@@ -88,6 +139,7 @@ fn observe(pkg: &rpm::Package, with_ar: bool) -> String {
     if let Some(i) = err_at {
         s.push_str(&format!(" err@{}", i));
     }
+    s.push_str(&format!(" all={}", drain_all(pkg)));
     s
 }
 
@@ -129,6 +181,7 @@ fn files_op(a: &[&str]) -> Option<String> {
     let mut comp = rpm::CompressionWithLevel::None;
     let mut is_none = true;
     let mut large = false;
+    let mut thr: Option<u64> = None;
     let mut specs: Vec<(String, u16, usize, char, u64)> = Vec::new();
     for t in a {
         if let Some(c) = t.strip_prefix("comp=") {
@@ -136,6 +189,8 @@ fn files_op(a: &[&str]) -> Option<String> {
             is_none = c == "none";
         } else if let Some(l) = t.strip_prefix("large=") {
             large = l == "1";
+        } else if let Some(n) = t.strip_prefix("thr=") {
+            thr = Some(n.parse().ok()?);
         } else if let Some(f) = t.strip_prefix("f=") {
             let p: Vec<&str> = f.split(':').collect();
             if p.len() != 4 { return None; }
@@ -164,7 +219,9 @@ fn files_op(a: &[&str]) -> Option<String> {
         };
     }
     let _guard = LargeGuard;
-    if large {
+    if let Some(n) = thr {
+        rpm::verif_hooks::set_large_file_threshold(Some(n));
+    } else if large {
         rpm::verif_hooks::set_large_file_threshold(Some(0));
     }
     let pkg = match b.build() {
@@ -389,6 +446,15 @@ pub fn gen(ctx: &mut Ctx) {
             }
         }
     }
+    // the large-file switch at its boundary (hook threshold N): combined size N - 1, N, N + 1, for sizes of every class mod 4
+    for (a, b) in [(0usize, 0usize), (1, 0), (3, 4), (4, 4), (5, 7), (4095, 1), (4096, 4096)] {
+        for d in [-1i64, 0, 1] {
+            let n = (a + b) as i64 + d;
+            if n < 0 { continue; }
+            e.req(&format!("files comp=none large=0 thr={} {} {}", n,
+                fspec(b"/t/a", 0o644, a, 'p', a as u64 + 1), fspec(b"/t/b", 0o755, b, 'r', b as u64 + 2)));
+        }
+    }
     // name lengths: every length mod 4 around short names, and up to the 4096 limit
     for n in 1..=9usize {
         let mut d = b"/".to_vec();
@@ -606,6 +672,64 @@ pub fn gen(ctx: &mut Ctx) {
             for i in 0..nf { ar.extend(stripped_entry(i as u32, &files[i].data)); if i == g { ar.extend(stripped_entry(i as u32, &files[i].data)); } }
             ar.extend(cpio_trailer());
             e.raw(&foreign_pkg(&fs, true, &ar));
+        }
+        // 13. damaged archives (what `all=` is about: the iterator keeps answering after an error item, from wherever the
+        //     failed step left the stream): one junk block that makes `Reader::new` fail on a known path — and is exactly
+        //     as long as what that path consumes, so the entries behind it are found again —, an unknown entry whose data
+        //     is itself an intact entry, and a cut at a random place. Two extra %ghost files in the header keep the
+        //     `count` guard open after the error.
+        {
+            let mut fs = files.clone();
+            for g in 0..2 {
+                fs.push(FFile { dir: b"/".to_vec(), base: format!("zz-ghost{}", g).into_bytes(), mode: 0o100644, data: vec![], ghost: true });
+            }
+            let hdr = |namesize: u32, filesize: u32| -> Vec<u8> {
+                let mut v = b"070701".to_vec();
+                for x in [1u32, 0o100644, 0, 0, 1, 0, filesize, 0, 0, 0, 0, namesize, 0] {
+                    v.extend_from_slice(format!("{:08x}", x).as_bytes());
+                }
+                v
+            };
+            let k = rng.below(13) as usize;
+            let junks: Vec<Vec<u8>> = vec![
+                b"07070Y".to_vec(),                                                               // bad magic: 6 bytes
+                { let mut v = hdr(2, 0); v.truncate(6 + 8 * k); v.extend_from_slice(b"0000000g"); v }, // bad hex in field k
+                hdr(4097, 0),                                                                     // name too long
+                hdr(0, 0),                                                                        // name length 0
+                { let mut v = hdr(4, 0); v.extend_from_slice(b"abcd"); v },                       // name not NUL-terminated
+                { let mut v = hdr(4, 0); v.extend_from_slice(&[0xff, 0xfe, b'a', 0]); v },        // name not UTF-8
+                b"07070X0000ffff\0\0".to_vec(),                                                   // stripped index beyond the header
+                b"07070X000000zz".to_vec(),                                                       // stripped entry, bad hex
+                { let mut v = hdr(4, 0); v.extend_from_slice(b"abcd"); v.push(b'!'); v },         // one byte more than consumed
+            ];
+            for junk in &junks {
+                let at = rng.below(nf as u64 + 1) as usize;
+                let mut ar = Vec::new();
+                for (i, f) in files.iter().enumerate() {
+                    if i == at { ar.extend_from_slice(junk); }
+                    ar.extend(entry(b"070701", f, i, 0));
+                }
+                if at == nf { ar.extend_from_slice(junk); }
+                ar.extend(cpio_trailer());
+                e.raw(&foreign_pkg(&fs, false, &ar));
+            }
+            {
+                // the data of an entry that names no header file is an intact entry of file 0
+                let inner = entry(b"070701", &files[0], 0, 0);
+                let stray = FFile { dir: b"/".to_vec(), base: b"stray".to_vec(), mode: 0o100644, data: inner, ghost: false };
+                let mut ar = named(b"./stray", &stray, 90);
+                for (i, f) in files.iter().enumerate().skip(1) { ar.extend(entry(b"070701", f, i, 0)); }
+                ar.extend(cpio_trailer());
+                e.raw(&foreign_pkg(&fs, false, &ar));
+            }
+            for _ in 0..2 {
+                let mut ar = Vec::new();
+                for (i, f) in files.iter().enumerate() { ar.extend(entry(b"070701", f, i, 0)); }
+                ar.extend(cpio_trailer());
+                let cut = rng.below(ar.len() as u64) as usize;
+                ar.truncate(cut);
+                e.raw(&foreign_pkg(&fs, false, &ar));
+            }
         }
     }
 }
